@@ -148,6 +148,10 @@ fn digest(h: &Hs) -> Hd {
     Hd { s1: fnv(&h.stream), s2: fnv2(&h.stream), slen: h.stream.len(), p1: fnv(&h.shape) }
 }
 
+/// Set by `Env::viol` on any label- or name-level violation: the
+/// consequences in record data with embedded names are then only counted.
+static NAME_LEVEL_BROKEN: std::sync::atomic::AtomicBool = std::sync::atomic::AtomicBool::new(false);
+
 //------------ environment -----------------------------------------------------
 
 struct Env {
@@ -170,8 +174,16 @@ impl Env {
         if let Some(o) = case.as_object_mut() {
             o.insert("tier".into(), json!(self.tier()));
         }
+        if sig.contains("|explained:") {
+            // consequence of a defect reported on the parts: counted only
+            self.stats.count(&format!("consequences-not-reported-again:{}", sig.rsplit('|').next().unwrap_or("")));
+            return;
+        }
         if self.verbose {
             println!("  violation: {sig}: {what}");
+        }
+        if sig.starts_with("C04|name") || sig.starts_with("C04|label") {
+            NAME_LEVEL_BROKEN.store(true, AO::Relaxed);
         }
         self.ctx.violation(&sig, &what, case);
     }
@@ -254,43 +266,81 @@ struct LawCfg<'a> {
     pair_class: &'a (dyn Fn(usize, usize) -> String + Sync),
     /// class of an eq-but-hash-differs pair
     hash_class: &'a (dyn Fn(usize, usize) -> String + Sync),
+    /// report only pairs/triples whose class starts with this prefix
+    only_prefix: Option<&'a str>,
+    /// label for the vacuity counters
+    tag: &'a str,
+    /// component named in signatures
+    sig_dom: &'a str,
+}
+
+fn sub_rel(rel: &Rel, idx: &[usize]) -> Rel {
+    let m = idx.len();
+    let mut r = Rel::new(m);
+    for (a, &i) in idx.iter().enumerate() {
+        for (b, &j) in idx.iter().enumerate() {
+            r.eq[a * m + b] = rel.e(i, j);
+            r.cmp[a * m + b] = rel.c(i, j);
+        }
+    }
+    r
 }
 
 fn check_laws(env: &Env, cfg: &LawCfg, rel: &Rel, hashes: Option<&[Hs]>) {
     let n = rel.n;
     let dom = cfg.dom;
     let on = cfg.ord_name;
+    let tag = cfg.tag;
     let case2 = |law: &str, i: usize, j: usize| json!({"domain": dom, "law": law, "items": [(cfg.desc)(i), (cfg.desc)(j)]});
+    // `emit(class, kind, what, case)`: signature C04|dom|kind|class
+    let sd = cfg.sig_dom;
+    let emit = |class: String, kind: String, what: String, case: Value| {
+        if class.starts_with("explained:") {
+            // consequence of an incoherence already reported on the parts
+            env.stats.count(&format!("{tag}:{kind}:{class}"));
+        } else if class.starts_with("unknown-variant") {
+            // one defect (enum dispatch falls back to comparing rtypes): one signature per order
+            if cfg.only_prefix.is_some() {
+                let group = if kind.contains("canonical_cmp") { "canonical_cmp" } else { "eq-cmp-hash-coherence" };
+                env.viol(format!("C04|{sd}|unknown-variant-vs-typed-variant-of-same-rtype|{group}"), format!("{kind}: {what}"), case);
+            }
+        } else if cfg.only_prefix.is_none() {
+            env.viol(format!("C04|{sd}|{kind}|{class}"), what, case);
+        }
+    };
+    let pc = |i: usize, j: usize| (cfg.pair_class)(i, j);
     // rank = number of strictly smaller items; a relation with c(i,j) =
     // -c(j,i) is a total preorder iff c(i,j) == sign(rank(i) - rank(j)).
     let rank: Vec<usize> = (0..n).into_par_iter().map(|i| (0..n).filter(|&j| rel.c(i, j) > 0).count()).collect();
     (0..n).into_par_iter().for_each(|i| {
         if cfg.with_eq && !rel.e(i, i) {
-            env.viol(format!("C04|{dom}|eq-not-reflexive|{}", (cfg.pair_class)(i, i)), "x == x is false".into(), case2("eq-reflexive", i, i));
+            emit(pc(i, i), "eq-not-reflexive".into(), "x == x is false".into(), case2("eq-reflexive", i, i));
         }
         if rel.c(i, i) != 0 {
-            env.viol(format!("C04|{dom}|{on}-self-not-equal|{}", (cfg.pair_class)(i, i)), format!("x.{on}(x) = {}", ord_s(rel.c(i, i))), case2("cmp-reflexive", i, i));
+            emit(pc(i, i), format!("{on}-self-not-equal"), format!("x.{on}(x) = {}", ord_s(rel.c(i, i))), case2("cmp-reflexive", i, i));
         }
         for j in 0..n {
             let (e, c) = (rel.e(i, j), rel.c(i, j));
             if cfg.with_eq {
                 if e != rel.e(j, i) {
-                    env.viol(format!("C04|{dom}|eq-not-symmetric|{}", (cfg.pair_class)(i, j)), format!("a == b is {e} but b == a is {}", !e), case2("eq-symmetric", i, j));
+                    emit(pc(i, j), "eq-not-symmetric".into(), format!("a == b is {e} but b == a is {}", !e), case2("eq-symmetric", i, j));
                 }
                 if e != (c == 0) {
                     let k = if e { format!("eq-but-{on}-{}", ord_s(c)) } else { format!("{on}-equal-but-ne") };
-                    env.viol(format!("C04|{dom}|eq-iff-{on}-equal|{k}|{}", (cfg.pair_class)(i, j)), format!("a == b is {e} but a.{on}(b) is {}", ord_s(c)), case2("eq-iff-cmp-equal", i, j));
+                    emit(pc(i, j), format!("eq-iff-{on}-equal|{k}"), format!("a == b is {e} but a.{on}(b) is {}", ord_s(c)), case2("eq-iff-cmp-equal", i, j));
                 }
                 if let (true, Some(h)) = (e, hashes) {
                     if h[i].stream != h[j].stream {
-                        env.viol(
-                            format!("C04|{dom}|eq-implies-hash|hash-input-differs|{}", (cfg.hash_class)(i, j)),
+                        emit(
+                            (cfg.hash_class)(i, j),
+                            "eq-implies-hash|hash-input-differs".into(),
                             format!("a == b but Hash feeds different octets: {} vs {}", hex(&h[i].stream[..h[i].stream.len().min(64)]), hex(&h[j].stream[..h[j].stream.len().min(64)])),
                             case2("eq-implies-hash", i, j),
                         );
                     } else if h[i].shape != h[j].shape {
-                        env.viol(
-                            format!("C04|{dom}|eq-implies-hash|same-octets-different-hasher-calls|{}", (cfg.hash_class)(i, j)),
+                        emit(
+                            (cfg.hash_class)(i, j),
+                            "eq-implies-hash|same-octets-different-hasher-calls".into(),
                             "a == b, Hash feeds the same octets but through different Hasher calls (hashers such as FxHasher give different digests)".into(),
                             case2("eq-implies-hash-shape", i, j),
                         );
@@ -298,12 +348,13 @@ fn check_laws(env: &Env, cfg: &LawCfg, rel: &Rel, hashes: Option<&[Hs]>) {
                 }
             }
             if c != -rel.c(j, i) {
-                env.viol(format!("C04|{dom}|{on}-not-antisymmetric|{}", (cfg.pair_class)(i, j)), format!("a.{on}(b) = {} but b.{on}(a) = {}", ord_s(c), ord_s(rel.c(j, i))), case2("cmp-antisymmetric", i, j));
+                emit(pc(i, j), format!("{on}-not-antisymmetric"), format!("a.{on}(b) = {} but b.{on}(a) = {}", ord_s(c), ord_s(rel.c(j, i))), case2("cmp-antisymmetric", i, j));
             } else {
                 let want = (rank[i] as i64 - rank[j] as i64).signum() as i8;
                 if c != want {
-                    env.viol(
-                        format!("C04|{dom}|{on}-not-a-total-preorder|{}", (cfg.pair_class)(i, j)),
+                    emit(
+                        pc(i, j),
+                        format!("{on}-not-a-total-preorder"),
                         format!("a.{on}(b) = {} but a has {} smaller items and b has {}: the relation is not transitive", ord_s(c), rank[i], rank[j]),
                         case2("cmp-total-preorder", i, j),
                     );
@@ -326,9 +377,16 @@ fn check_laws(env: &Env, cfg: &LawCfg, rel: &Rel, hashes: Option<&[Hs]>) {
                         fail = Some(format!("{on}-not-transitive"));
                     }
                     if let Some(f) = fail {
-                        if bad.fetch_add(1, AO::Relaxed) < 64 {
-                            env.viol(
-                                format!("C04|{dom}|{f}|{}", (cfg.pair_class)(i, k)),
+                        if bad.fetch_add(1, AO::Relaxed) < 256 {
+                            // class of a triple: the most specific of its three pair classes
+                            let cs = [pc(i, j), pc(j, k), pc(i, k)];
+                            let class = match cfg.only_prefix {
+                                Some(p) => cs.iter().find(|c| c.starts_with("unknown-variant-vs")).or_else(|| cs.iter().find(|c| c.starts_with(p))).cloned().unwrap_or_else(|| cs[2].clone()),
+                                None => cs[2].clone(),
+                            };
+                            emit(
+                                class,
+                                f.clone(),
                                 format!("a?b = {}, b?c = {}, a?c = {} (== : {}, {}, {})", ord_s(cij), ord_s(cjk), ord_s(cik), eij, rel.e(j, k), rel.e(i, k)),
                                 json!({"domain": dom, "law": f, "items": [(cfg.desc)(i), (cfg.desc)(j), (cfg.desc)(k)]}),
                             );
@@ -338,30 +396,23 @@ fn check_laws(env: &Env, cfg: &LawCfg, rel: &Rel, hashes: Option<&[Hs]>) {
             }
         });
         env.triples.fetch_add((n as u64).pow(3), AO::Relaxed);
-        env.stats.count_n(&format!("{dom}:{on}:triples"), (n as u64).pow(3));
+        env.stats.count_n(&format!("{tag}:{on}:triples"), (n as u64).pow(3));
     }
     // vacuity: number of equivalence classes and of distinct hash inputs
     let mut ranks = rank.clone();
     ranks.sort();
     ranks.dedup();
-    env.stats.count_n(&format!("{dom}:{on}:items"), n as u64);
-    env.stats.count_n(&format!("{dom}:{on}:order-classes"), ranks.len() as u64);
+    env.stats.count_n(&format!("{tag}:{on}:items"), n as u64);
+    env.stats.count_n(&format!("{tag}:{on}:order-classes"), ranks.len() as u64);
     if let (true, Some(h)) = (cfg.with_eq, hashes) {
         let mut hs: Vec<&Vec<u8>> = h.iter().map(|x| &x.stream).collect();
         hs.sort();
         hs.dedup();
-        env.stats.count_n(&format!("{dom}:distinct-hash-inputs"), hs.len() as u64);
+        env.stats.count_n(&format!("{tag}:distinct-hash-inputs"), hs.len() as u64);
         // unequal values with identical hash input (allowed; measures how
         // much the hash distinguishes, e.g. a missing length prefix)
-        let mut coll = 0u64;
-        for i in 0..n {
-            for j in 0..n {
-                if !rel.e(i, j) && h[i].stream == h[j].stream {
-                    coll += 1;
-                }
-            }
-        }
-        env.stats.count_n(&format!("{dom}:unequal-pairs-with-identical-hash-input"), coll);
+        let coll: u64 = (0..n).into_par_iter().map(|i| (0..n).filter(|&j| !rel.e(i, j) && h[i].stream == h[j].stream).count() as u64).sum();
+        env.stats.count_n(&format!("{tag}:unequal-pairs-with-identical-hash-input"), coll);
     }
 }
 
@@ -521,7 +572,7 @@ fn dom_labels(env: &Env, only: Option<&[usize]>) {
                 }
                 if o.cmp != ref_cmp {
                     env.viol(
-                        format!("C04|label|cmp-vs-rfc4034-6.1|expected-{}-got-{}", ord_s(ref_cmp), ord_s(o.cmp)),
+                        "C04|label|cmp-vs-rfc4034-6.1".to_string(),
                         format!("cmp({}, {}) = {}, RFC 4034 6.1 (lower-cased, left-justified octet strings): {}", hex(a), hex(b), ord_s(o.cmp), ord_s(ref_cmp)),
                         case(),
                     );
@@ -553,7 +604,7 @@ fn dom_labels(env: &Env, only: Option<&[usize]>) {
     }
     env.stats.sample(12, || json!({"domain": "label", "a": hex(&items[n / 3].1), "b": hex(&items[n / 2].1), "eq": rel.e(n / 3, n / 2), "cmp": ord_s(rel.c(n / 3, n / 2))}));
     let cls = |_: usize, _: usize| "-".to_string();
-    check_laws(env, &LawCfg { dom: "label", ord_name: "cmp", with_eq: true, triples: true, desc: &desc, pair_class: &cls, hash_class: &cls }, &rel, Some(&hashes));
+    check_laws(env, &LawCfg { dom: "label", ord_name: "cmp", with_eq: true, triples: true, desc: &desc, pair_class: &cls, hash_class: &cls, only_prefix: None, tag: "label", sig_dom: "label" }, &rel, Some(&hashes));
 }
 
 //------------ character strings ------------------------------------------------------
@@ -668,7 +719,7 @@ fn dom_charstrs(env: &Env, only: Option<&[usize]>) {
                     env.viol(format!("C04|charstr|eq-vs-reference|{k}"), format!("{} == {} is {}", hex(a), hex(b), o.eq_vv), case());
                 }
                 if o.cmp_vv != ref_cmp {
-                    env.viol(format!("C04|charstr|cmp-vs-lowercased-octets|expected-{}-got-{}", ord_s(ref_cmp), ord_s(o.cmp_vv)), format!("cmp({}, {}) = {}", hex(a), hex(b), ord_s(o.cmp_vv)), case());
+                    env.viol("C04|charstr|cmp-vs-lowercased-octets".to_string(), format!("cmp({}, {}) = {}", hex(a), hex(b), ord_s(o.cmp_vv)), case());
                 }
                 if [o.eq_vs, o.eq_sv, o.eq_uu, o.eq_v_octets] != [o.eq_vv; 4] {
                     env.viol("C04|charstr|representation|eq-differs-between-octets-types".into(), format!("{} ? {}: {:?}", hex(a), hex(b), o), case());
@@ -693,7 +744,7 @@ fn dom_charstrs(env: &Env, only: Option<&[usize]>) {
     }
     env.stats.sample(12, || json!({"domain": "charstr", "a": hex(&items[n / 3].1), "b": hex(&items[n / 2].1), "eq": rel.e(n / 3, n / 2), "cmp": ord_s(rel.c(n / 3, n / 2))}));
     let cls = |_: usize, _: usize| "-".to_string();
-    check_laws(env, &LawCfg { dom: "charstr", ord_name: "cmp", with_eq: true, triples: true, desc: &desc, pair_class: &cls, hash_class: &cls }, &rel, Some(&hashes));
+    check_laws(env, &LawCfg { dom: "charstr", ord_name: "cmp", with_eq: true, triples: true, desc: &desc, pair_class: &cls, hash_class: &cls, only_prefix: None, tag: "charstr", sig_dom: "charstr" }, &rel, Some(&hashes));
 }
 
 //------------ names -----------------------------------------------------------------
@@ -745,12 +796,18 @@ struct RepSpec {
     /// split position (chain kind)
     split: Option<usize>,
     flat: bool,
+    /// the octets of the name are contiguous in memory (flat, uncompressed,
+    /// or reached through bare pointers)
+    contiguous: bool,
 }
 
 fn rep_specs(name: usize, labels: &[Vec<u8>]) -> Vec<RepSpec> {
     let k = labels.len();
     let mut out = Vec::new();
-    let spec = |kind: String, msg: Vec<u8>, pos: usize, split: Option<usize>, flat: bool| RepSpec { name, kind, msg, pos, split, flat };
+    let spec = |kind: String, msg: Vec<u8>, pos: usize, split: Option<usize>, flat: bool| {
+        let contiguous = flat || kind == "parsed-uncompressed" || kind == "parsed-compressed-at-0" || kind == "parsed-double-pointer";
+        RepSpec { name, kind, msg, pos, split, flat, contiguous }
+    };
     out.push(spec("flat".into(), vec![], 0, None, true));
     // uncompressed inside a message, after a 12 octet header
     let mut m = vec![0u8; 12];
@@ -966,7 +1023,7 @@ fn dom_names(env: &Env, depth: usize, rep_triples: bool, dom_id: u64, only: Opti
                 env.say(|| format!("name[{}] ? name[{}]: {:?}", specs[i].0, specs[j].0, o));
                 re[j] = o.name_eq;
                 rc[j] = o.name_cmp;
-                let kinds = || format!("{}-vs-{}", specs[i].1.kind.trim_end_matches(|c: char| c.is_numeric() || c == '-'), specs[j].1.kind.trim_end_matches(|c: char| c.is_numeric() || c == '-'));
+                let kinds = || if specs[i].1.contiguous && specs[j].1.contiguous { "both-contiguous-in-memory" } else { "not-both-contiguous-in-memory" };
                 let ref_eq = lcl[ni] == lcl[nj];
                 let ref_cmp = sgn(lcl[ni].cmp(&lcl[nj]));
                 if o.name_eq != ref_eq {
@@ -1020,24 +1077,16 @@ fn dom_names(env: &Env, depth: usize, rep_triples: bool, dom_id: u64, only: Opti
     if n > 2 {
         env.stats.sample(12, || json!({"domain": dom, "a": desc(n / 3), "b": desc(n / 2), "name_eq": rel.e(n / 3, n / 2), "name_cmp": ord_s(rel.c(n / 3, n / 2))}));
     }
-    let cls = |i: usize, j: usize| format!("{}-vs-{}", specs[i].1.kind.trim_end_matches(|c: char| c.is_numeric() || c == '-'), specs[j].1.kind.trim_end_matches(|c: char| c.is_numeric() || c == '-'));
+    let cls = |i: usize, j: usize| if specs[i].1.contiguous && specs[j].1.contiguous { "both-contiguous-in-memory".to_string() } else { "not-both-contiguous-in-memory".to_string() };
     let dn = format!("name(depth{depth})");
-    check_laws(env, &LawCfg { dom: "name", ord_name: "name_cmp", with_eq: true, triples: rep_triples, desc: &desc, pair_class: &cls, hash_class: &cls }, &rel, None);
+    check_laws(env, &LawCfg { dom: "name", ord_name: "name_cmp", with_eq: true, triples: rep_triples, desc: &desc, pair_class: &cls, hash_class: &cls, only_prefix: None, tag: &dn, sig_dom: "name" }, &rel, None);
     // all triples of flat names
     let flat_idx: Vec<usize> = (0..n).filter(|&i| specs[i].1.flat).collect();
-    let m = flat_idx.len();
-    let mut frel = Rel::new(m);
-    for (a, &i) in flat_idx.iter().enumerate() {
-        for (b, &j) in flat_idx.iter().enumerate() {
-            frel.eq[a * m + b] = rel.e(i, j);
-            frel.cmp[a * m + b] = rel.c(i, j);
-        }
-    }
+    let frel = sub_rel(&rel, &flat_idx);
     let fh: Vec<Hs> = flat_idx.iter().map(|&i| hashes[i].clone().unwrap_or_default()).collect();
     let fdesc = |a: usize| desc(flat_idx[a]);
     let fcls = |_: usize, _: usize| "flat-vs-flat".to_string();
-    check_laws(env, &LawCfg { dom: "name-flat", ord_name: "cmp", with_eq: true, triples: true, desc: &fdesc, pair_class: &fcls, hash_class: &fcls }, &frel, Some(&fh));
-    let _ = dn;
+    check_laws(env, &LawCfg { dom: "name-flat", ord_name: "cmp", with_eq: true, triples: true, desc: &fdesc, pair_class: &fcls, hash_class: &fcls, only_prefix: None, tag: &format!("{dn}-flat"), sig_dom: "name-flat" }, &frel, Some(&fh));
 }
 
 //------------ record data -------------------------------------------------------------
@@ -1239,6 +1288,9 @@ struct RdObs {
 
 fn rd_pair_class(m: &[RMeta], i: usize, j: usize) -> String {
     let (a, b) = (&m[i], &m[j]);
+    if NAME_LEVEL_BROKEN.load(AO::Relaxed) && a.rtype == b.rtype && !a.names.is_empty() && !a.unknown_variant && !b.unknown_variant {
+        return format!("explained:label-or-name-level-defect:{}", a.mnemonic);
+    }
     if a.rtype != b.rtype {
         "cross-type".into()
     } else if a.unknown_variant != b.unknown_variant {
@@ -1269,15 +1321,15 @@ where
             Ok((h, hp)) => {
                 let hp = hp.unwrap_or_else(|| h.clone());
                 if h.stream != hp.stream {
-                    env.viol(format!("C04|{dom}|representation|hash-input-of-parsed-differs-from-flat|{}", rd_pair_class(metas, i, i)), format!("{} vs {}", hex(&h.stream), hex(&hp.stream)), case());
+                    env.viol(format!("C04|rdata|representation|hash-input-of-parsed-differs-from-flat|{}", rd_pair_class(metas, i, i)), format!("{} vs {}", hex(&h.stream), hex(&hp.stream)), case());
                 } else if h.shape != hp.shape {
-                    env.viol(format!("C04|{dom}|representation|hasher-calls-of-parsed-differ-from-flat|{}", rd_pair_class(metas, i, i)), metas[i].desc.clone(), case());
+                    env.viol(format!("C04|rdata|representation|hasher-calls-of-parsed-differ-from-flat|{}", rd_pair_class(metas, i, i)), metas[i].desc.clone(), case());
                 }
                 env.say(|| format!("{dom}[{}] {} hash input {}", idx[i], metas[i].desc, hex(&h.stream)));
                 hashes.push(h);
             }
             Err(e) => {
-                env.viol(format!("C04|{dom}|panic|{}", panic_class(&e)), e, case());
+                env.viol(format!("C04|rdata|panic|{}", panic_class(&e)), e, case());
                 hashes.push(Hs::default());
             }
         }
@@ -1291,7 +1343,7 @@ where
                 canon_lib.push(c);
             }
             Err(e) => {
-                env.viol(format!("C04|{dom}|compose_canonical_rdata|panic-or-error|{}", panic_class(&e)), e, case());
+                env.viol(format!("C04|rdata|compose_canonical_rdata|panic-or-error|{}", panic_class(&e)), e, case());
                 canon_lib.push(metas[i].canon[0].clone());
             }
         }
@@ -1324,7 +1376,7 @@ where
                 let o = match r {
                     Ok(o) => o,
                     Err(e) => {
-                        env.viol(format!("C04|{dom}|panic|{}", panic_class(&e)), e, case());
+                        env.viol(format!("C04|rdata|panic|{}", panic_class(&e)), e, case());
                         continue;
                     }
                 };
@@ -1334,27 +1386,28 @@ where
                 rcc[j] = o.can;
                 let pc = rd_pair_class(metas, i, j);
                 if o.pcmp != Some(o.cmp) {
-                    env.viol(format!("C04|{dom}|partial_cmp-vs-cmp|{pc}"), format!("{o:?}"), case());
+                    env.viol(format!("C04|rdata|partial_cmp-vs-cmp|{pc}"), format!("{o:?}"), case());
                 }
                 let f = (o.eq, o.pcmp, o.can);
                 if o.pf.map(|v| v != f).unwrap_or(false) || o.fp.map(|v| v != f).unwrap_or(false) || o.pp.map(|v| (v.0, v.1, v.2) != f || v.3 != o.cmp).unwrap_or(false) {
-                    env.viol(format!("C04|{dom}|representation|parsed-vs-flat-results-differ|{pc}"), format!("{o:?}"), case());
+                    env.viol(format!("C04|rdata|representation|parsed-vs-flat-results-differ|{pc}"), format!("{o:?}"), case());
                 }
                 let (a, b) = (&metas[i], &metas[j]);
                 if a.rtype == b.rtype {
                     // canonical order == octet order of the canonical forms
                     let want: Vec<i8> = a.canon.iter().flat_map(|ca| b.canon.iter().map(move |cb| sgn(ca.cmp(cb)))).collect();
+                    let own = sgn(canon_lib[i].cmp(&canon_lib[j]));
                     if !want.contains(&o.can) {
+                        let sig = if pc.starts_with("unknown-variant") { "C04|rdata|unknown-variant-vs-typed-variant-of-same-rtype|canonical_cmp".to_string() } else { format!("C04|rdata|canonical_cmp-vs-rfc4034-canonical-octets|{pc}") };
                         env.viol(
-                            format!("C04|{dom}|canonical_cmp-vs-rfc4034-canonical-octets|{pc}"),
-                            format!("canonical_cmp = {}, octet order of the canonical forms {} / {} is {}", ord_s(o.can), hex(&a.canon[0]), hex(&b.canon[0]), ord_s(want[0])),
+                            sig,
+                            format!("canonical_cmp = {}, octet order of the canonical forms {} / {} is {} (own compose_canonical_rdata outputs: {})", ord_s(o.can), hex(&a.canon[0]), hex(&b.canon[0]), ord_s(want[0]), ord_s(own)),
                             case(),
                         );
-                    }
-                    let own = sgn(canon_lib[i].cmp(&canon_lib[j]));
-                    if o.can != own {
+                    } else if o.can != own {
+                        let sig = if pc.starts_with("unknown-variant") { "C04|rdata|unknown-variant-vs-typed-variant-of-same-rtype|canonical_cmp".to_string() } else { format!("C04|rdata|canonical_cmp-vs-own-compose_canonical_rdata-octets|{pc}") };
                         env.viol(
-                            format!("C04|{dom}|canonical_cmp-vs-own-compose_canonical_rdata-octets|{pc}"),
+                            sig,
                             format!("canonical_cmp = {}, octet order of compose_canonical_rdata outputs {} / {} is {}", ord_s(o.can), hex(&canon_lib[i]), hex(&canon_lib[j]), ord_s(own)),
                             case(),
                         );
@@ -1364,7 +1417,7 @@ where
                     if a.unknown_variant == b.unknown_variant && a.name_lc == b.name_lc {
                         *local.entry(format!("{dom}:must-be-equal-pairs")).or_insert(0) += 1;
                         if !o.eq {
-                            env.viol(format!("C04|{dom}|values-differing-only-in-case-of-names-unequal|{pc}"), format!("{} vs {}", hex(&a.wire), hex(&b.wire)), case());
+                            env.viol(format!("C04|rdata|values-differing-only-in-case-of-names-unequal|{}", if pc.starts_with("explained:") { pc.as_str() } else { "-" }), format!("{} vs {}", hex(&a.wire), hex(&b.wire)), case());
                         }
                     } else if o.eq {
                         if lc(&a.wire) == lc(&b.wire) {
@@ -1388,8 +1441,19 @@ where
         env.stats.sample(16, || json!({"domain": dom, "a": desc(n / 3), "b": desc(n / 3 + 1), "eq": rel.e(n / 3, n / 3 + 1), "cmp": ord_s(rel.c(n / 3, n / 3 + 1)), "canonical_cmp": ord_s(crel.c(n / 3, n / 3 + 1))}));
     }
     let cls = |i: usize, j: usize| rd_pair_class(metas, i, j);
-    check_laws(env, &LawCfg { dom, ord_name: "cmp", with_eq: true, triples: n <= 1600, desc: &desc, pair_class: &cls, hash_class: &cls }, &rel, Some(&hashes));
-    check_laws(env, &LawCfg { dom, ord_name: "canonical_cmp", with_eq: false, triples: n <= 1600, desc: &desc, pair_class: &cls, hash_class: &cls }, &crel, None);
+    // (a) the typed values alone; (b) everything, reporting only what involves
+    // an `Unknown`-variant value of a known type
+    let typed: Vec<usize> = (0..n).filter(|&i| !metas[i].unknown_variant).collect();
+    let tdesc = |a: usize| desc(typed[a]);
+    let tcls = |a: usize, b: usize| rd_pair_class(metas, typed[a], typed[b]);
+    let th: Vec<Hs> = typed.iter().map(|&i| hashes[i].clone()).collect();
+    check_laws(env, &LawCfg { dom, ord_name: "cmp", with_eq: true, triples: true, desc: &tdesc, pair_class: &tcls, hash_class: &tcls, only_prefix: None, tag: dom, sig_dom: "rdata" }, &sub_rel(&rel, &typed), Some(&th));
+    check_laws(env, &LawCfg { dom, ord_name: "canonical_cmp", with_eq: false, triples: true, desc: &tdesc, pair_class: &tcls, hash_class: &tcls, only_prefix: None, tag: dom, sig_dom: "rdata" }, &sub_rel(&crel, &typed), None);
+    if typed.len() < n {
+        let tag = format!("{dom}+unknown-variants");
+        check_laws(env, &LawCfg { dom, ord_name: "cmp", with_eq: true, triples: n <= 1600, desc: &desc, pair_class: &cls, hash_class: &cls, only_prefix: Some("unknown-variant"), tag: &tag, sig_dom: "rdata" }, &rel, Some(&hashes));
+        check_laws(env, &LawCfg { dom, ord_name: "canonical_cmp", with_eq: false, triples: n <= 1600, desc: &desc, pair_class: &cls, hash_class: &cls, only_prefix: Some("unknown-variant"), tag: &tag, sig_dom: "rdata" }, &crel, None);
+    }
 }
 
 fn dom_rdata(env: &Env, only: Option<&[usize]>, zone: bool) {
@@ -1562,12 +1626,24 @@ fn dom_records(env: &Env, only: Option<&[usize]>) {
                     h
                 }
                 Err(e) => {
-                    env.viol(format!("C04|record|panic|{}", panic_class(&e)), e, json!({"domain": dom, "items": [desc(i)]}));
+                    env.viol(format!("C04|rdata|panic|{}", panic_class(&e)), e, json!({"domain": dom, "items": [desc(i)]}));
                     Hs::default()
                 }
             }
         })
         .collect();
+    // data-level observations (==, cmp, canonical_cmp) of the RDATA parts: an
+    // incoherence there is reported by the rdata domain, its consequences
+    // for records are only counted
+    let nd = rm.len();
+    let dlev: Vec<Option<(bool, i8, i8)>> = (0..nd * nd)
+        .into_par_iter()
+        .map(|k| {
+            let (x, y) = (&rd[k / nd], &rd[k % nd]);
+            guard(|| (x == y, sgn(x.cmp(y)), sgn(x.canonical_cmp(y)))).ok()
+        })
+        .collect();
+    let dl_eq = |x: usize, y: usize| dlev[x * nd + y].map(|d| d.0).unwrap_or(false);
     // reference keys
     let okey: Vec<Vec<Vec<u8>>> = owners.iter().map(|l| l.iter().rev().map(|x| lc(x)).collect()).collect();
     let full_canon = |r: &RecMeta, rdata: &Vec<u8>| {
@@ -1614,7 +1690,7 @@ fn dom_records(env: &Env, only: Option<&[usize]>) {
                 let o = match r {
                     Ok(o) => o,
                     Err(e) => {
-                        env.viol(format!("C04|record|panic|{}", panic_class(&e)), e, case());
+                        env.viol(format!("C04|rdata|panic|{}", panic_class(&e)), e, case());
                         continue;
                     }
                 };
@@ -1634,7 +1710,7 @@ fn dom_records(env: &Env, only: Option<&[usize]>) {
                 // records differing only in the case of names are equal
                 if owner_eq && a.class == b.class && a.ttl == b.ttl && ma.rtype == mb.rtype && ma.name_lc == mb.name_lc {
                     *local.entry("record:must-be-equal-pairs".into()).or_insert(0) += 1;
-                    if !o.eq {
+                    if !o.eq && !NAME_LEVEL_BROKEN.load(AO::Relaxed) && dl_eq(a.data, b.data) {
                         env.viol("C04|record|records-differing-only-in-case-of-names-unequal".into(), format!("{o:?}"), case());
                     }
                 }
@@ -1656,7 +1732,10 @@ fn dom_records(env: &Env, only: Option<&[usize]>) {
                     vec![doc, sgn(fulls[i].cmp(&fulls[j]))]
                 };
                 *local.entry(format!("record:canonical:{}", if same_rrset { "same-rrset" } else { "different-rrset" })).or_insert(0) += 1;
-                if !accept.contains(&o.can) {
+                let dl = dlev[a.data * nd + b.data];
+                if !accept.contains(&o.can) && same_rrset && dl.map(|d| d.2 == o.can && d.2 != rdo).unwrap_or(false) {
+                    *local.entry(format!("record:canonical_cmp-propagates-rdata-level-defect:{}", ma.mnemonic)).or_insert(0) += 1;
+                } else if !accept.contains(&o.can) {
                     env.viol(
                         format!("C04|record|canonical_cmp-vs-rfc4034-6.3|{}|{}", if same_rrset { "same-rrset" } else { "different-rrset" }, if ma.rtype == mb.rtype { ma.mnemonic.as_str() } else { "cross-type" }),
                         format!("canonical_cmp = {}, acceptable: {:?}", ord_s(o.can), accept.iter().map(|x| ord_s(*x)).collect::<Vec<_>>()),
@@ -1678,14 +1757,22 @@ fn dom_records(env: &Env, only: Option<&[usize]>) {
     }
     let cls = |i: usize, j: usize| {
         let (a, b) = (&items[i].1, &items[j].1);
-        if rm[a.data].rtype == rm[b.data].rtype { rm[a.data].mnemonic.clone() } else { "cross-type".into() }
+        let incoherent = dlev[a.data * nd + b.data].map(|d| d.0 != (d.1 == 0)).unwrap_or(true);
+        let t = if rm[a.data].rtype == rm[b.data].rtype { rm[a.data].mnemonic.clone() } else { "cross-type".into() };
+        if NAME_LEVEL_BROKEN.load(AO::Relaxed) {
+            "explained:label-or-name-level-defect:owner".to_string()
+        } else if incoherent {
+            format!("explained:rdata-level-eq-cmp-incoherence:{t}")
+        } else {
+            "-".to_string()
+        }
     };
     let hcls = |i: usize, j: usize| {
         let (a, b) = (&items[i].1, &items[j].1);
-        if a.ttl != b.ttl { "records-with-different-ttl".to_string() } else { format!("records-with-same-ttl|{}", rm[a.data].mnemonic) }
+        if a.ttl != b.ttl { "records-with-different-ttl".to_string() } else { "records-with-same-ttl".to_string() }
     };
-    check_laws(env, &LawCfg { dom, ord_name: "cmp", with_eq: true, triples: n <= 1600, desc: &desc, pair_class: &cls, hash_class: &hcls }, &rel, Some(&hashes));
-    check_laws(env, &LawCfg { dom, ord_name: "canonical_cmp", with_eq: false, triples: n <= 1600, desc: &desc, pair_class: &cls, hash_class: &hcls }, &crel, None);
+    check_laws(env, &LawCfg { dom, ord_name: "cmp", with_eq: true, triples: n <= 1600, desc: &desc, pair_class: &cls, hash_class: &hcls, only_prefix: None, tag: dom, sig_dom: "record" }, &rel, Some(&hashes));
+    check_laws(env, &LawCfg { dom, ord_name: "canonical_cmp", with_eq: false, triples: n <= 1600, desc: &desc, pair_class: &cls, hash_class: &hcls, only_prefix: None, tag: dom, sig_dom: "record" }, &crel, None);
 }
 
 //------------ wide: per type, all pairs of the rgen quick menu (thorough) -------------------
@@ -1719,7 +1806,7 @@ fn dom_wide(env: &Env, only_type: Option<(&str, Vec<u64>)>) {
                 let h = match guard(|| digest(&hrec(&vals[i].data))) {
                     Ok(h) => h,
                     Err(e) => {
-                        env.viol(format!("C04|{dom}|panic|{}", panic_class(&e)), e, json!({"domain": dom, "type": t, "items": [desc(i)]}));
+                        env.viol(format!("C04|rdata|panic|{}", panic_class(&e)), e, json!({"domain": dom, "type": t, "items": [desc(i)]}));
                         Hd { s1: 0, s2: 0, slen: 0, p1: 0 }
                     }
                 };
@@ -1727,7 +1814,7 @@ fn dom_wide(env: &Env, only_type: Option<(&str, Vec<u64>)>) {
                     Ok(c) if c == metas[i].canon[0] => None,
                     Ok(c) => Some(c),
                     Err(e) => {
-                        env.viol(format!("C04|{dom}|compose_canonical_rdata|panic-or-error|{}", panic_class(&e)), e, json!({"domain": dom, "type": t, "items": [desc(i)]}));
+                        env.viol(format!("C04|rdata|compose_canonical_rdata|panic-or-error|{}", panic_class(&e)), e, json!({"domain": dom, "type": t, "items": [desc(i)]}));
                         None
                     }
                 };
@@ -1753,7 +1840,7 @@ fn dom_wide(env: &Env, only_type: Option<(&str, Vec<u64>)>) {
                     let ((eq, cmp, pcmp, can), (req, rcmp, rcan)) = match r {
                         Ok(o) => o,
                         Err(e) => {
-                            env.viol(format!("C04|{dom}|panic|{}", panic_class(&e)), e, case());
+                            env.viol(format!("C04|rdata|panic|{}", panic_class(&e)), e, case());
                             continue;
                         }
                     };
@@ -1762,34 +1849,33 @@ fn dom_wide(env: &Env, only_type: Option<(&str, Vec<u64>)>) {
                     }
                     outcomes[(can + 1) as usize] += 1;
                     if eq != req {
-                        env.viol(format!("C04|{dom}|eq-not-symmetric|{t}"), format!("a == b is {eq}, b == a is {req}"), case());
+                        env.viol(format!("C04|rdata|eq-not-symmetric|{t}"), format!("a == b is {eq}, b == a is {req}"), case());
                     }
                     if cmp != -rcmp {
-                        env.viol(format!("C04|{dom}|cmp-not-antisymmetric|{t}"), format!("{} vs {}", ord_s(cmp), ord_s(rcmp)), case());
+                        env.viol(format!("C04|rdata|cmp-not-antisymmetric|{t}"), format!("{} vs {}", ord_s(cmp), ord_s(rcmp)), case());
                     }
                     if can != -rcan {
-                        env.viol(format!("C04|{dom}|canonical_cmp-not-antisymmetric|{t}"), format!("{} vs {}", ord_s(can), ord_s(rcan)), case());
+                        env.viol(format!("C04|rdata|canonical_cmp-not-antisymmetric|{t}"), format!("{} vs {}", ord_s(can), ord_s(rcan)), case());
                     }
                     if eq != (cmp == 0) {
                         let k = if eq { format!("eq-but-cmp-{}", ord_s(cmp)) } else { "cmp-equal-but-ne".into() };
-                        env.viol(format!("C04|{dom}|eq-iff-cmp-equal|{k}|{t}"), format!("a == b is {eq}, cmp is {}", ord_s(cmp)), case());
+                        env.viol(format!("C04|rdata|eq-iff-cmp-equal|{k}|{t}"), format!("a == b is {eq}, cmp is {}", ord_s(cmp)), case());
                     }
                     if pcmp != Some(cmp) {
-                        env.viol(format!("C04|{dom}|partial_cmp-vs-cmp|{t}"), format!("{pcmp:?} vs {}", ord_s(cmp)), case());
+                        env.viol(format!("C04|rdata|partial_cmp-vs-cmp|{t}"), format!("{pcmp:?} vs {}", ord_s(cmp)), case());
                     }
                     if eq && un[i].0 != un[j].0 {
-                        env.viol(format!("C04|{dom}|eq-implies-hash|hash-input-differs|{t}"), "a == b but the recorded hash inputs differ".into(), case());
+                        env.viol(format!("C04|rdata|eq-implies-hash|hash-input-differs|{t}"), "a == b but the recorded hash inputs differ".into(), case());
                     }
                     let want = sgn(metas[i].canon[0].cmp(&metas[j].canon[0]));
-                    if can != want {
-                        env.viol(format!("C04|{dom}|canonical_cmp-vs-rfc4034-canonical-octets|{t}"), format!("canonical_cmp = {}, octet order of the canonical forms is {}", ord_s(can), ord_s(want)), case());
-                    }
                     let own = sgn(canon_lib(i).cmp(canon_lib(j)));
-                    if can != own {
-                        env.viol(format!("C04|{dom}|canonical_cmp-vs-own-compose_canonical_rdata-octets|{t}"), format!("canonical_cmp = {}, octet order of compose_canonical_rdata outputs is {}", ord_s(can), ord_s(own)), case());
+                    if can != want {
+                        env.viol(format!("C04|rdata|canonical_cmp-vs-rfc4034-canonical-octets|{t}"), format!("canonical_cmp = {}, octet order of the canonical forms is {} (own compose_canonical_rdata outputs: {})", ord_s(can), ord_s(want), ord_s(own)), case());
+                    } else if can != own {
+                        env.viol(format!("C04|rdata|canonical_cmp-vs-own-compose_canonical_rdata-octets|{t}"), format!("canonical_cmp = {}, octet order of compose_canonical_rdata outputs is {}", ord_s(can), ord_s(own)), case());
                     }
                     if metas[i].name_lc == metas[j].name_lc && !eq {
-                        env.viol(format!("C04|{dom}|values-differing-only-in-case-of-names-unequal|{t}"), "".into(), case());
+                        env.viol(format!("C04|rdata|values-differing-only-in-case-of-names-unequal|{}", if t.starts_with("explained:") { t } else { "-" }), "".into(), case());
                     }
                 }
                 env.stats.evaluations.fetch_add(n as u64, AO::Relaxed);
@@ -1812,7 +1898,7 @@ fn dom_wide(env: &Env, only_type: Option<(&str, Vec<u64>)>) {
                 let want = (rank[i] as i64 - rank[j] as i64).signum() as i8;
                 if c != want {
                     env.viol(
-                        format!("C04|{dom}|cmp-not-a-total-preorder|{t}"),
+                        format!("C04|rdata|cmp-not-a-total-preorder|{t}"),
                         format!("cmp = {} but a has {} smaller values and b has {}", ord_s(c), rank[i], rank[j]),
                         json!({"domain": dom, "type": t, "candidates": [vals[i].index, vals[j].index], "items": [desc(i), desc(j)]}),
                     );
